@@ -328,6 +328,12 @@ func (m *M) reported(inst *Inst) *model.Node {
 	if n == nil {
 		m.fail(inst, "reported tip %s is not a header that was ever submitted", last)
 	}
+	// The "forgot" set (side branches a Load need not restore) is a lower bound of what is dropped:
+	// an instance that reports such a header on its best chain evidently restored it.
+	for a := n; a != nil && inst.forgot[a]; a = a.Parent {
+		delete(inst.forgot, a)
+		inst.acc[a], inst.held[a] = true, true
+	}
 	return n
 }
 
@@ -917,6 +923,11 @@ func (m *M) checkStream(inst *Inst) {
 				}
 				if at == -1 {
 					m.fail(inst, "subscriber %d received %s whose previous block %s it does not hold", si, m.label(hash), m.label(raw.Prev))
+				}
+				if at+1 < len(s.chain) && s.chain[at+1] == hash {
+					// "one header when the best chain is extended": a header that is already part
+					// of the subscriber's chain is announced again only after it left the best chain
+					m.fail(inst, "subscriber %d was sent %s although it already holds it on its chain (announced twice)", si, m.label(hash))
 				}
 				s.chain = append(s.chain[:at+1], hash)
 				if n := m.tree.ByHash[hash]; n == nil || !model.IsAncestorOrEqual(n, tip) {
